@@ -406,7 +406,8 @@ func (e *Engine) loopWrites(fr *Frame, st *State, blocks map[*ssa.BasicBlock]boo
 			switch x := in.(type) {
 			case *ssa.Store:
 				if a, ok := rootAlloc(x.Addr); ok && arrayElemOfPtr(a.Type()) != nil {
-					addType("E", arrayElemOfPtr(a.Type()))
+					// an array allocated inside the loop (varargs) is a fresh object in every iteration
+					addTypeG("E", arrayElemOfPtr(a.Type()), !blocks[a.Block()])
 				} else if ok && !a.Heap {
 					cells[a] = true
 				} else if ok && a.Heap {
@@ -801,6 +802,9 @@ func (e *Engine) cutLoopBack(fr *Frame, h *ssa.BasicBlock, ord int, lc *LoopCont
 // "objects <= alloc0 have their entry contents".
 func (e *Engine) freshFrameFacts(st *State) []Term {
 	var out []Term
+	if e.FC != nil && e.FC.TrustFrame {
+		return nil
+	}
 	fcs := freshComps(e.FC)
 	if len(fcs) == 0 {
 		return nil
